@@ -5,6 +5,7 @@ line `{"engine": ..., ...}`, one response per output line: `{"ok": {...}}` or
 -/
 import ZenoModel.Driver.SeqEngine
 import ZenoModel.Driver.StoreEngine
+import ZenoModel.Driver.ClusterEngine
 import ZenoModel.Driver.SnapshotEngine
 import ZenoModel.Driver.AlterEngine
 import ZenoModel.Driver.ReportEngine
@@ -14,6 +15,7 @@ import ZenoModel.Driver.PlanEngine
 import ZenoModel.Driver.CrashEngine
 import ZenoModel.Driver.CoalesceEngine
 import ZenoModel.Driver.QueryEngine
+import ZenoModel.Driver.SubQueryEngine
 import ZenoModel.Driver.CodecEngine
 import ZenoModel.Driver.SortEngine
 import ZenoModel.Driver.AuthEngine
@@ -24,6 +26,7 @@ def dispatch (j : Json) : R Json := do
   match (← str j "engine") with
   | "seq" => seqEngine j
   | "store" => storeEngine j
+  | "cluster" => clusterEngine j
   | "snapshot" => snapshotEngine j
   | "alter" => alterEngine j
   | "report" => reportEngine j
@@ -34,6 +37,7 @@ def dispatch (j : Json) : R Json := do
   | "coalesce" => coalesceEngine j
   | "spec" => specEngine j
   | "query" => queryEngine j
+  | "subquery" => subQueryEngine j
   | "codec" => codecEngine j
   | "sort" => sortEngine j
   | "auth" => authEngine j
